@@ -350,7 +350,7 @@ fn c04_strategy(tier: Tier) -> BoxedStrategy<Case> {
     gen::search_case(SearchOpts {
         prop: "C04",
         cfg: CfgOpts { engines: vec![Engine::TopAuto], sks: vec![Sk::Both], anchored: 0, casei: 1, ..CfgOpts::default() },
-        pats: PatOpts { w_empty: 5, max_class: if tier == Tier::Thorough { 2 } else { 1 }, long: false, w_shapes: 3, w_adversarial: 1, w_fanout: 2 },
+        pats: PatOpts { w_empty: 5, max_class: if tier == Tier::Thorough { 2 } else { 1 }, long: true, w_shapes: 3, w_adversarial: 1, w_fanout: 2 },
         hay: HayOpts { size_class: 1 },
         full_span_only: false,
         alphabets: gen::default_alphabets(),
@@ -576,7 +576,7 @@ fn c16_strategy(tier: Tier) -> BoxedStrategy<Case> {
     gen::search_case(SearchOpts {
         prop: "C16",
         cfg: CfgOpts { engines: vec![Engine::LowNc], sks: vec![Sk::Both], anchored: 0, casei: 1, ..CfgOpts::default() },
-        pats: PatOpts { w_empty: 5, max_class: if tier == Tier::Thorough { 2 } else { 1 }, long: false, w_shapes: 3, w_adversarial: 1, w_fanout: 1 },
+        pats: PatOpts { w_empty: 5, max_class: if tier == Tier::Thorough { 2 } else { 1 }, long: true, w_shapes: 4, w_adversarial: 1, w_fanout: 1 },
         hay: HayOpts { size_class: 1 },
         full_span_only: true,
         alphabets: gen::default_alphabets(),
